@@ -251,6 +251,10 @@ def run_check(prop, tier="quick", seed=0, replay=None):
             res.append(isbad)
         return res
 
+    if os.environ.get("VERIF_DUMP") and unexplained:
+        with open(os.path.join(paths.REPLAYS, f"{pid}-ALL.jsonl"), "w") as f:
+            for i in unexplained:
+                f.write(_jd({"case": all_cases[i], "impl_out": outs[i], "code": codes.get(i)}) + "\n")
     for n_, i in enumerate(unexplained[:5]):
         c = all_cases[i]
         if n_ < 2 and not replay:
